@@ -161,10 +161,41 @@ def run_impl(c):
         np.random.seed(c["seed"])
         r2 = noise_gauss(big, snr=snr, **kw)
         noise = r1 - big
+        # ... also when the job is handed to a forked worker after the seed was fixed (multiprocessing on Linux)
+        forked = []
+        small = big[:5000]
+        np.random.seed(c["seed"])
+        want = noise_gauss(small, snr=snr, **kw)
+        for _ in range(2):
+            np.random.seed(c["seed"])
+            forked.append(_in_forked_child(lambda: noise_gauss(small, snr=snr, **kw)))
+        out["fork_repro"] = bool(all(f is not None and np.array_equal(f, want) for f in forked))
         out["stat"] = {"repro": bool(np.array_equal(r1, r2)), "mean": float(np.mean(noise)),
                        "emp_snr": float(np.mean(big ** 2) / np.var(noise)) if np.var(noise) > 0 else None,
                        "want_snr": float(lin_snr(c)[0]), "power": float(np.mean(big ** 2))}
     return out
+
+
+def _in_forked_child(fn):
+    """run fn() in a forked child of this process and return the float64 array it produced (None on failure)"""
+    import os
+    r, w = os.pipe()
+    pid = os.fork()
+    if pid == 0:
+        code = 1
+        try:
+            os.close(r)
+            data = np.asarray(fn(), dtype=float).tobytes()
+            with os.fdopen(w, "wb") as f:
+                f.write(data)
+            code = 0
+        finally:
+            os._exit(code)
+    os.close(w)
+    with os.fdopen(r, "rb") as f:
+        data = f.read()
+    os.waitpid(pid, 0)
+    return np.frombuffer(data, dtype=float) if data else None
 
 
 def compare(c, io, mo):
@@ -216,6 +247,9 @@ def oracle(c, io):
     if io.get("scale_second_call") is not None and io["scale_second_call"] != rec["scale"]:
         return (f"a second call with the same signal and the same snr profile used a different noise std: "
                 f"{io['scale_second_call'][:3]} vs {rec['scale'][:3]}")
+    if io.get("fork_repro") is False:
+        return ("with the NumPy seed fixed, the noise computed by a forked worker differs from run to run / from the noise "
+                "computed in the seeding process: the fixed seed is not honoured")
     st = io.get("stat")
     if st:
         if not st["repro"]:
